@@ -201,7 +201,10 @@ def run(tier, rep):
     # (1) character strings
     nstr = {}
     for purpose, modes in (('parse', ('parse',)), ('lex', ('lex',))):
-        sp, tasks = CH.string_tasks(tier, purpose)
+        # bare lexer iteration over the big character spaces is C06's run;
+        # here the lexer-only pass keeps to the 'parse' sized spaces
+        sp, tasks = CH.string_tasks(tier, 'parse' if tier != 'quick'
+                                    else purpose)
 
         def work_tasks(chunk, idx, sp=sp, modes=modes):
             acc = Acc()
@@ -218,8 +221,6 @@ def run(tier, rep):
     strs = list(CH.strings_of_task(sp, tasks[len(tasks) // 2]))[:9] or ['a']
     # (2) truncations and single-character corruptions of S2 programs
     base = [G.render(l) for l in G.programs(1)]
-    if tier == 'thorough':
-        base += [G.render(l) for l in G.programs(2)[::5]]
     muts = set()
     for s in base:
         for i in range(len(s) + 1):
@@ -229,9 +230,19 @@ def run(tier, rep):
                 muts.add(s[:i] + c + s[i + 1:])
                 if tier == 'thorough':
                     muts.add(s[:i] + c + s[i:])
+    if tier == 'thorough':
+        # a stated sub-space of the two-constructor programs: every third
+        # chain below the core forms, truncations and replacements only
+        for lex in G.chain_programs(2, G.CORE_FORMS)[::3]:
+            s = G.render(lex)
+            for i in range(len(s) + 1):
+                muts.add(s[:i])
+            for i in range(len(s)):
+                for c in CH.CORRUPT:
+                    muts.add(s[:i] + c + s[i + 1:])
     muts = sorted(muts)
     total.merge(run_texts(muts, ('parse',)))
-    total.merge(run_texts(muts[::4] if tier == 'quick' else muts,
+    total.merge(run_texts(muts[::4] if tier == 'quick' else muts[::2],
                           ('parse-comments',)))
     rep.space('truncations-corruptions', base=len(base), texts=len(muts))
     # (3) S1 prefixes and the look-ahead space S1+
@@ -257,7 +268,8 @@ def run(tier, rep):
     else:
         cp_texts = []
         for c in cps:
-            cp_texts += [c, 'a' + c + 'b', "'" + c + "'", '/' + c + '/']
+            cp_texts += [c, 'a' + c + 'b', "'" + c + "'"]
+        cp_texts += ['/' + c + '/' for c in cps[:0x3100]]
     total.merge(run_texts(cp_texts, ('parse',)))
     rep.space('code-points', upto=hex(hi), texts=len(cp_texts))
 
